@@ -72,6 +72,8 @@ structure Opts where
   muloRow : Bool := true
   /-- `make_one_ret` collects the values of several `ret`s in fresh temporaries -/
   freshRets : Bool := false
+  /-- the address of a memory destination of an overflow instruction is computed in front of it -/
+  ovfAddrBefore : Bool := false
 deriving Repr, DecidableEq
 
 structure St where
@@ -154,7 +156,7 @@ structure OpRes where
 
 /-- `simplify_op` for register / integer / memory operands.
 `moveP`: the instruction is `mov`; `keepMem`: `move_p && (nop == 1 || insn->ops[1].mode == MIR_OP_REG)` -/
-def simplifyOp (st : St) (moveP outP keepMem : Bool) (op : Opd R) : OpRes × St :=
+def simplifyOp (st : St) (moveP outP keepMem : Bool) (op : Opd R) (isOvf : Bool := false) : OpRes × St :=
   match op with
   | .reg _ => ({ op := op }, st)
   | .imm v =>
@@ -163,7 +165,7 @@ def simplifyOp (st : St) (moveP outP keepMem : Bool) (op : Opd R) : OpRes × St 
       ({ before := [.mov (.reg t) (.imm v)], op := .reg t }, st)
   | .mem m =>
     if m.ty.isBlk then ({ op := op }, st) else   -- block argument of a call: left as it is
-    let afterP := !moveP && outP
+    let afterP := !moveP && outP && !(isOvf && st.opts.ovfAddrBefore)
     let (ais, a, st) := lowerAddr st m
     let m' := simpleMem m.ty a
     if keepMem then
@@ -181,13 +183,14 @@ def isReg : Opd R → Bool
   | _ => false
 
 /-- operands in `simplify_insn` order with their `out_p`; labels/prototype/callee are not operands here -/
-def simplifyOps (st : St) (moveP : Bool) (src1IsReg : Bool) :
-    List (Opd R × Bool) → Nat → List SInsn × List SInsn × List (Opd R) × St
-  | [], _ => ([], [], [], st)
-  | (o, outP) :: tl, nop =>
+def simplifyOps (st : St) (moveP : Bool) (src1IsReg : Bool) (ops : List (Opd R × Bool)) (nop : Nat)
+    (isOvf : Bool := false) : List SInsn × List SInsn × List (Opd R) × St :=
+  match ops with
+  | [] => ([], [], [], st)
+  | (o, outP) :: tl =>
     let keep := moveP && (nop == 1 || src1IsReg)
-    let (r, st) := simplifyOp st moveP outP keep o
-    let (bs, as, os, st) := simplifyOps st moveP src1IsReg tl (nop + 1)
+    let (r, st) := simplifyOp st moveP outP keep o isOvf
+    let (bs, as, os, st) := simplifyOps st moveP src1IsReg tl (nop + 1) isOvf
     -- later "after" groups are inserted directly behind the instruction, i.e. in front of earlier ones
     (r.before ++ bs, as ++ r.after, r.op :: os, st)
 
@@ -215,7 +218,7 @@ def simplifyInsn (st : St) (i : SInsn) : List SInsn × St :=
     | [d', s'] => (bs ++ [.neg sh d' s'] ++ as, st)
     | _ => ([i], st)
   | .ovf o sh d x y =>
-    let (bs, as, os, st) := simplifyOps st false false [(d, true), (x, false), (y, false)] 0
+    let (bs, as, os, st) := simplifyOps st false false [(d, true), (x, false), (y, false)] 0 true
     match os with
     | [d', x', y'] => (bs ++ [.ovf o sh d' x' y'] ++ as, st)
     | _ => ([i], st)
